@@ -35,7 +35,8 @@ RULE = ("cases drawn from one PRNG (VERIF_SEED). A case is a scripted session ag
         "and arbitrary bytes), session (2-7 resources/errors/chunks, random completion order and interleaved polls, sealing), "
         "consume (several futures leaving through SsrSharedContext::consume_buffers() under every kind of completion order), "
         "ids (nested hydrated / non-hydrated regions in islands mode), boundary (1-4 real <ErrorBoundary/> trees between other "
-        "id consumers, islands regions, errors after the stream started), response (sessions through build_response), wake "
+        "id consumers and real <Suspense/> / <Transition/> components whose children read a LocalResource (the producer of "
+        "incomplete-chunk ids), islands regions, errors after the stream started), response (sessions through build_response), wake "
         "(a value completing after poll_next returned Pending must wake the waker of the latest poll; take_errors / "
         "await_deferred in between), many (20-120 values in one response). Strings come from an adversarial alphabet "
         "(< > & \" ' / = ` NUL, <!--, -->, ]]>, </script, </title, </textarea, </style, <script, backslashes, "
@@ -59,7 +60,8 @@ TRUSTED = [
     "binary-codec case incl. all block-size boundaries, for UTF-8 and for arbitrary bytes",
     "compared, not proved: what an <ErrorBoundary/> amounts to at the level of the context (Script.expand: one id for the "
     "boundary at construction, children built depth first, one id + register_error per thrown error in rendering order) is a "
-    "transcription of leptos/src/error_boundary.rs, diffed against the real component on every boundary case; the theorems "
+    "transcription of leptos/src/error_boundary.rs (likewise <Suspense/> / <Transition/>: one id, set_incomplete_chunk under "
+    "it when the children read a LocalResource), diffed against the real components on every boundary case; the theorems "
     "about ids and chunks hold for the expanded scripts because they hold for all scripts",
     "judged by the oracle only (outside the model): RkyvCodec's archive bytes, the nonce variant of build_response, the waker "
     "contract of the stream, take_errors(), await_deferred()",
@@ -415,8 +417,11 @@ def gen_boundary(rng):
         if mode == 1 and r < 0.3:
             hyd = not hyd if rng.random() < 0.7 else hyd
             script.append([1, int(hyd)])
-        elif r < 0.65:
+        elif r < 0.55:
             script.append([15, rng.choice([0, 1, 2]), gen_children(rng, 0, [rng.randint(1, 8)])])
+        elif r < 0.7:
+            # a real <Suspense/> / <Transition/>, its children reading a LocalResource or not
+            script.append([19, rng.choice([1, 2]), rng.choice([0, 1]), rng.choice([0, 1, 1])])
         elif r < 0.8:
             script.append(res_cmd(rng, text(rng, 5)))
         elif r < 0.9:
@@ -874,6 +879,14 @@ def oracle(item, impl):
                     client_expect.append(("id", e_id))
                 b["thrown"].append((e_id, s_of(msg)))
                 errors.append((b["sid"], e_id, s_of(msg), not over))
+        elif op == 19:
+            # a real <Suspense/> / <Transition/>: one id; if its children read a LocalResource the
+            # browser has to find that id among the incomplete chunks
+            i = next_id_entry()
+            if not islands or hyd:
+                client_expect.append(("id", i))
+            if cmd[3]:
+                incompletes.append((i, not stream_over()))
         elif op == 16:
             e = take_entry()
             if must_wake[0] and not e[1]:
@@ -1044,7 +1057,7 @@ def valid_case(item):
             return False
         mode, escset, script = case[1], case[2], case[3]
         arity = {0: (1,), 1: (2,), 2: (3,), 3: (4,), 4: (2,), 5: (2,), 6: (1,), 7: (2,), 8: (1,), 9: (2,), 10: (2,),
-                 12: (4, 5), 14: (2,), 15: (3,), 16: (1,), 17: (1,), 18: (1,)}
+                 12: (4, 5), 14: (2,), 15: (3,), 16: (1,), 17: (1,), 18: (1,), 19: (4,)}
         chars = set()
         n_ids = 0            # ids handed out to the script so far: what (1 k) may refer to
         consumers = 0
@@ -1060,7 +1073,7 @@ def valid_case(item):
                     return False
                 if isinstance(a, list) and len(a) == 2 and a[0] == 0:
                     literal_write = min(a[1], literal_write) if literal_write is not False else a[1]
-            if op == 0:
+            if op in (0, 19):
                 n_ids += 1
                 consumers += 1
             elif op == 12:
@@ -1071,7 +1084,9 @@ def valid_case(item):
                 consumers += k + count_resources(cmd[2])
             if op == 1 and (cmd[1] not in (0, 1) or (mode != 1 and cmd[1] == 0)):
                 return False
-            if op in (14, 15) and mode in (2, 3):
+            if op in (14, 15, 19) and mode in (2, 3):
+                return False
+            if op == 19 and (cmd[1] not in (1, 2) or cmd[2] not in (0, 1) or cmd[3] not in (0, 1)):
                 return False
             srcs = {2: [1], 3: [1, 2], 4: [1], 5: [1], 9: [1], 10: [1]}.get(op, [])
             for k in srcs:
@@ -1194,6 +1209,10 @@ def describe(it):
     for cmd in case[3]:
         if cmd[0] == 12:
             out.append(describe_res(cmd[1], cmd[2], cmd[3], cmd[4] if len(cmd) > 4 else 0))
+            continue
+        if cmd[0] == 19:
+            out.append("stream[%s](<%s>%s</%s>)" % (["?", "in-order", "out-of-order"][cmd[1]], ["Suspense", "Transition"][cmd[2]],
+                                                   "{local_resource.get()}" if cmd[3] else "loaded", ["Suspense", "Transition"][cmd[2]]))
             continue
         if cmd[0] == 15:
             out.append("render[%s](<ErrorBoundary>%s</ErrorBoundary>)"
